@@ -31,8 +31,9 @@ def nontest_bodies(F):
 
 
 def d1(ctx, F):
-    sc = F.body("selium_server::quic::server_config")
-    ctx.touch(sc)
+    sc0 = F.body("selium_server::quic::server_config")
+    ctx.touch(sc0)
+    sc = F.inlined(sc0)           # private helpers of server_config are looked through
     vs = [c for c in sc.calls() if c.name() == "with_client_cert_verifier"]
     ctx.floor("C15.D1.server-verifier.sites", len(vs), 1)
     for c in vs:
